@@ -187,4 +187,70 @@ func facts(f *hc.Facts) {
 		fc = f.Src(fd.Body.List[0]) == "e.reqCancel(ErrEngineClosed)"
 	}
 	f.Bool("forceCloseCause", fc, "ForceClose: e.reqCancel(ErrEngineClosed)")
+	// mtproto/read.go readLoop: the top-level statements, the body of the read loop spliced in
+	// (1 defer handlers.Wait(), 2 handlers.Add(1), 3 go func() { defer handlers.Done(); … c.consumeMessage(…) … }(),
+	//  4 a go statement that handles a message without that, 0 anything else)
+	var rl []string
+	if fd := f.FuncDecl("mtproto", "Conn.readLoop"); fd != nil && fd.Body != nil {
+		var walk func(list []ast.Stmt)
+		walk = func(list []ast.Stmt) {
+			for _, st := range list {
+				src := f.Src(st)
+				switch x := st.(type) {
+				case *ast.ForStmt:
+					walk(x.Body.List)
+					continue
+				case *ast.GoStmt:
+					code := "4"
+					if fl, ok := x.Call.Fun.(*ast.FuncLit); ok && len(fl.Body.List) >= 2 &&
+						f.Src(fl.Body.List[0]) == "defer handlers.Done()" && strings.Contains(f.Src(fl.Body), "c.consumeMessage(ctx, buf)") {
+						code = "3"
+					}
+					rl = append(rl, code)
+					continue
+				}
+				switch {
+				case src == "defer handlers.Wait()":
+					rl = append(rl, "1")
+				case src == "handlers.Add(1)":
+					rl = append(rl, "2")
+				default:
+					rl = append(rl, "0")
+				}
+			}
+		}
+		walk(fd.Body.List)
+	}
+	f.Raw("def readLoopOps : List Nat := [" + strings.Join(rl, ", ") + "] -- mtproto readLoop (loop body spliced in): 1 defer handlers.Wait() 2 handlers.Add(1) 3 go func(){ defer handlers.Done(); …consumeMessage… }() 4 other go statement 0 other")
+	// rpc/ack.go NotifyAcks: the body of the loop over the ids of one msgs_ack
+	// (1 ch, ok := e.ack[id]; 2 if !ok { …; continue }; 9 an if !ok branch that ends otherwise; 3 close(ch); 4 delete(e.ack, id); 0 other)
+	var na []string
+	if fd := f.FuncDecl("rpc", "Engine.NotifyAcks"); fd != nil && fd.Body != nil {
+		for _, st := range fd.Body.List {
+			rs, ok := st.(*ast.RangeStmt)
+			if !ok || f.Src(rs.X) != "ids" {
+				continue
+			}
+			for _, b := range rs.Body.List {
+				src := f.Src(b)
+				switch {
+				case src == "ch, ok := e.ack[id]":
+					na = append(na, "1")
+				case strings.HasPrefix(src, "if !ok {"):
+					code := "9"
+					if is, ok := b.(*ast.IfStmt); ok && is.Else == nil && len(is.Body.List) > 0 && f.Src(is.Body.List[len(is.Body.List)-1]) == "continue" {
+						code = "2"
+					}
+					na = append(na, code)
+				case src == "close(ch)":
+					na = append(na, "3")
+				case src == "delete(e.ack, id)":
+					na = append(na, "4")
+				default:
+					na = append(na, "0")
+				}
+			}
+		}
+	}
+	f.Raw("def notifyAcksOps : List Nat := [" + strings.Join(na, ", ") + "] -- NotifyAcks, body of `for _, id := range ids`: 1 ch, ok := e.ack[id] 2 if !ok {…continue} 9 if !ok ending otherwise 3 close(ch) 4 delete(e.ack, id) 0 other")
 }
